@@ -90,7 +90,7 @@ def esc_cases(tier):
         for h in range(256):
             yield 'escape-x', "%s'\\x%02x'" % (k, h)
             yield 'escape-x', "%s'\\x%02X'" % (k, h)
-        for h in '0123456789abcdefABCDEFgG _':
+        for h in '0123456789abcdefABCDEFgG _+-':
             yield 'escape-x', "%s'\\x%s'" % (k, h)
             yield 'escape-x', "%s'\\x%sg'" % (k, h)
             yield 'escape-x', "%s'\\xg%s'" % (k, h)
@@ -102,6 +102,8 @@ def esc_cases(tier):
                     continue
                 for follow in ['', '0', '7', '8', 'a']:
                     yield 'escape-octal', "%s'\\%s%s'" % (k, sp, follow)
+    for bad in ("'\\u+041'", "'\\u-041'", "'\\U+001F600'", "'\\U0001F60+'", "'\\u 041'", "b'\\x+f'", "'\\u004+'"):
+        yield 'escape-u', bad
     for v in range(0x10000):
         yield 'escape-u', "'\\u%04x'" % v
     for v in list(range(0, 0x300)) + [0xd7ff, 0xd800, 0xdbff, 0xdc00, 0xdfff, 0xe000, 0xffff]:
